@@ -69,11 +69,12 @@ def rule_layering(repo: Repo, rid: str = "C06.layering") -> RuleResult:
     return r
 
 
-def rule_range(repo: Repo, rid: str, spec: str, guarded_callees) -> RuleResult:
-    """the quantifier range: the per-object work is reachable only when is_sub_type(object type, quantified type) is true"""
+def rule_range(repo: Repo, rid: str, spec: str, guarded_callees=None) -> RuleResult:
+    """the quantifier range: the quantified parameter is bound to an object only when is_sub_type(object type, quantified type)
+    is true.  `spec` is a public entry point; private helpers are analysed in place."""
     r = RuleResult(rid, f"{spec}: an object is in the range of the quantifier iff its type is a subtype of the quantified type",
                    "forall ranges over every object of the type and its subtypes")
-    f = repo.func(spec)
+    f = L.fn(repo, spec)
     p = L.prov(repo, f)
     g = C.cfg_of(f.node)
     atoms = {}
@@ -82,24 +83,44 @@ def rule_range(repo: Repo, rid: str, spec: str, guarded_callees) -> RuleResult:
             if any("attr:quantified_type" in x for x in p.trace(c.args[0])) and any("attr:type" in x for x in p.trace(c.func.value)):
                 atoms[id(c)] = c
     r.site(f.qn)
-    work = [c for c in L.calls_in(f.node) if callee_name(c) in guarded_callees]
+
+    def from_objects(e) -> bool:
+        return any(any("problem_objects" in s_ for s_ in x) for x in p.trace(e))
+
+    def is_qparam(e) -> bool:
+        return any(x[-1] == "attr:quantified_parameter" for x in p.trace(e))
+
+    # per-object work: the quantified parameter is bound to (the name of) a problem object
+    work = []
+    for n in ast.walk(f.node):
+        if isinstance(n, ast.Assign) and len(n.targets) == 1 and isinstance(n.targets[0], ast.Subscript) and is_qparam(n.targets[0].slice) \
+                and from_objects(n.value):
+            work.append(n)
+        elif isinstance(n, ast.Dict):
+            for k, v in zip(n.keys, n.values):
+                if k is not None and is_qparam(k) and from_objects(v):
+                    work.append(v)
+        elif isinstance(n, ast.Call) and isinstance(n.func, ast.Attribute) and n.func.attr in ("update", "setdefault", "__setitem__") and len(n.args) == 2 \
+                and is_qparam(n.args[0]) and from_objects(n.args[1]):
+            work.append(n)
     if not work:
-        raise AnalysisError(f"{spec}: per-object work ({guarded_callees}) not found")
+        raise AnalysisError(f"{spec}: the binding of the quantified parameter to a problem object was not found")
     if not atoms:
         r.fail(Finding(rid, f, "range-not-subtype", "the range of the quantifier is not decided by <object type>.is_sub_type(<quantified type>)"))
         return r
     G = L.Guards(f, lambda e: "sub" if id(e) in atoms else None)
     seen_f = G.reach({"sub": False})
     seen_t = G.reach({"sub": True})
-    wn = {g.node_containing(c) for c in work}
+    wn = {g.node_containing(c) if not isinstance(c, ast.stmt) else g.node_of(c) for c in work}
     if (wn & seen_f) or not (wn <= seen_t):
         r.fail(Finding(rid, f, "range-guard", "the per-object work is reachable for an object whose type is not a subtype of the quantified type (or unreachable for one that is)"))
     else:
-        r.ok({"range": "object.type.is_sub_type(quantified_type)"})
+        r.ok({"range": "object.type.is_sub_type(quantified_type)", "bindings": len(work)})
     # the loop ranges over all problem objects
-    loops = [n for n in ast.walk(f.node) if isinstance(n, ast.For) and any("problem_objects" in "/".join(x) for x in p.trace(n.iter))]
+    loops = [n for n in ast.walk(f.node) if isinstance(n, ast.For) and any("problem_objects" in "/".join(x) for x in p.trace(n.iter))
+             and any(any(x is w for x in ast.walk(n)) for w in work)]
     r.site(f.qn + " [all objects]")
-    if loops and not any(any(s.startswith("slice:") or s.startswith("arg0:filter") for s in x) for x in p.trace(loops[0].iter)):
+    if loops and not any(any(s_.startswith("slice:") or s_.startswith("arg0:filter") for s_ in x) for lp in loops for x in p.trace(lp.iter)):
         r.ok({"iterates": unparse(loops[0].iter, 60)})
     else:
         r.fail(Finding(rid, f, "range-objects", "the quantifier does not range over all problem objects"))
@@ -110,7 +131,7 @@ def rule_range(repo: Repo, rid: str, spec: str, guarded_callees) -> RuleResult:
 def rule_conform(repo: Repo, rid: str = "C06.conform", only_funcs: Optional[Iterable[str]] = None, floor: int = 3) -> RuleResult:
     r = RuleResult(rid, "conformance of an object's type to a required type is decided by is_sub_type, never by ==/!= on types or type names",
                    "forall / fact checking range over the type and its subtypes")
-    funcs = repo.all_funcs() if only_funcs is None else [repo.func(x) for x in only_funcs]
+    funcs = repo.all_funcs() if only_funcs is None else [L.fn(repo, x) for x in only_funcs]
     for f in funcs:
         if f.cls == "PDDLType" or f.name in ("__eq__", "__ne__", "__hash__", "__repr__"):
             continue
@@ -482,6 +503,6 @@ def rule_root(repo: Repo) -> RuleResult:
 def rules(repo: Repo, tier: str) -> List[RuleResult]:
     from . import c01
     return [c01.rule_typedlist(repo, "C06.typedlist", ["DomainParser.parse_types"], lookup_required=False), rule_conform(repo), rule_layering(repo),
-            rule_range(repo, "C06.range", "Operator._apply_universal_effects", ("GroundedEffect",)),
-            rule_range(repo, "C06.range", "GroundedPrecondition._validate_universal_precondition", ("_ground_universal_condition",)), rule_direction(repo), rule_closure(repo), rule_identity(repo), rule_parentlink(repo),
+            rule_range(repo, "C06.range", "Operator.apply"),
+            rule_range(repo, "C06.range", "GroundedPrecondition.is_applicable"), rule_direction(repo), rule_closure(repo), rule_identity(repo), rule_parentlink(repo),
             rule_walk(repo), rule_root(repo)]
